@@ -126,6 +126,41 @@ func c37Readers(c *Ctx, funcs []*ssa.Function, rl *types.Named, fAddrs, fRelays 
 		collect: "recycles the backing arrays (x[:0]) while producing the new lists",
 		sortFn:  "sorts and de-duplicates the lists in place, under the write lock taken by Rebuild",
 	}
+	// a helper of a builder (the sort comparator extracted into a method, a half of the collector): a method every
+	// reference to which is a plain call on the builder's own receiver, made from a builder or from such a helper. It reads
+	// the lists only while they are being built. 1 = yes; 2 = referenced only from builders, but not only by such calls
+	helperMemo := map[*ssa.Function]int{}
+	var builderHelper func(fn *ssa.Function, depth int) int
+	builderHelper = func(fn *ssa.Function, depth int) int {
+		if v, ok := helperMemo[fn]; ok {
+			return v
+		}
+		helperMemo[fn] = 0
+		ref, isDecl := g6RefOf(fn)
+		if !isDecl || fn.Parent() != nil || !g6RecvIs(fn, rl) || depth >= 3 {
+			return 0
+		}
+		n, res := 0, 1
+		for _, cs := range callersOf(funcs, ref) {
+			if c.isTestHelperFile(cs.Instr) {
+				continue
+			}
+			n++
+			top := topFunc(cs.Fn)
+			if builders[top] == "" && builderHelper(top, depth+1) != 1 {
+				return 0
+			}
+			ci, isCall := cs.Instr.(*ssa.Call)
+			if cs.Kind != "call" || !isCall || len(callArgs(ci)) == 0 || !fix3SameReceiverCall(cs.Fn, callArgs(ci)[0]) {
+				res = 2
+			}
+		}
+		if n == 0 {
+			return 0
+		}
+		helperMemo[fn] = res
+		return res
+	}
 	for _, fn := range funcs {
 		if builders[topFunc(fn)] != "" {
 			continue
@@ -136,6 +171,14 @@ func c37Readers(c *Ctx, funcs []*ssa.Function, rl *types.Named, fAddrs, fRelays 
 				continue
 			}
 			cons := fnName(fn) + ":" + fld.Name()
+			switch builderHelper(topFunc(fn), 0) {
+			case 1:
+				c.OK("C37.readers", cons, fmt.Sprintf("%d read(s) in a helper that runs only while unlockedCollect / unlockedSort build the list (every reference is a call on the builder's receiver)", len(sites)))
+				continue
+			case 2:
+				c.Unknown("C37.readers", cons, "the list is read in a function referenced only from unlockedCollect / unlockedSort, but not only by plain calls on their receiver (method value, go, defer, other receiver): cannot order the read against Rebuild")
+				continue
+			}
 			direct := true
 			for _, s := range sites {
 				fa := g6FieldAddrOfSite(s, fld)
@@ -223,10 +266,16 @@ func c37Readers(c *Ctx, funcs []*ssa.Function, rl *types.Named, fAddrs, fRelays 
 // Rebuild
 
 func c37RebuildRules(c *Ctx, funcs []*ssa.Function, rl *types.Named, fDirty *types.Var, rebuild, collect *ssa.Function, rebuilders []Ref) {
-	isSort, isCollect := g6IsCallTo(c37Sort), g6IsCallTo(c37Collect)
+	// Rebuild may be a locking wrapper around one helper method holding its body; single steps (collect, sort) may live
+	// in helper methods called on the same receiver: a helper every return of which is preceded by the step counts as the
+	// step (x_fix3_helpers.go). The rules below are decided on the function that holds the body.
+	core, wrappers := fix3RebuildCore(c, rebuild, rl, c37Sort, c37Collect)
+	mSort, mCollect := fix3NewMust(c, rl, c37Sort), fix3NewMust(c, rl, c37Collect)
+	isSort, isCollect := mSort.event(core), mCollect.event(core)
+	directSort := g6IsCallTo(c37Sort)
 	bad := false
-	for _, r := range g6Returns(rebuild) {
-		if av, path := c.avoidsCut(rebuild, nil, r, isSort); av {
+	for _, r := range g6Returns(core) {
+		if av, path := c.avoidsCut(core, nil, r, isSort); av {
 			bad = true
 			c.Bad("C37.rebuild", "Rebuild:always-sorts", c.instrPos(r), "Rebuild can return without unlockedSort: a change of the preferred ranges (or a fresh collection) is handed to readers unsorted and with duplicates", path...)
 			break
@@ -236,25 +285,61 @@ func c37RebuildRules(c *Ctx, funcs []*ssa.Function, rl *types.Named, fDirty *typ
 		c.OK("C37.rebuild", "Rebuild:always-sorts", "every return is preceded by unlockedSort")
 	}
 	// dirty => collect, before the sort
-	clean, nTests := passEdges(rebuild, gValBool("list not dirty", false, isFieldLoad(fDirty)))
-	sorts := callsIn(rebuild, c37Sort)
+	clean, nTests := passEdges(core, gValBool("list not dirty", false, isFieldLoad(fDirty)))
+	var sorts, collects []ssa.Instruction
+	eachInstr(core, func(in ssa.Instruction) {
+		if isSort(in) {
+			sorts = append(sorts, in)
+		}
+		if mCollect.may(in) {
+			collects = append(collects, in)
+		}
+	})
 	if len(sorts) == 0 {
 		c.Unknown("C37.rebuild", "Rebuild:collect-when-dirty", "unlockedSort call not found")
 	}
 	for i, s := range sorts {
-		av, path := c.g6Avoids(rebuild, nil, s, isCollect, clean)
-		c.Check(!av, "C37.rebuild", fmt.Sprintf("Rebuild:collect-when-dirty#%d", i), c.instrPos(s), fmt.Sprintf("the sort is reached without collecting only over the not-dirty edge (%d flag test(s))", nTests),
+		cons := fmt.Sprintf("Rebuild:collect-when-dirty#%d", i)
+		if !directSort(s) && mCollect.may(s) {
+			c.Unknown("C37.rebuild", cons, "the sort is made by a helper that also collects: the order of flag test, collection and sort is not decided across the call")
+			continue
+		}
+		av, path := c.g6Avoids(core, nil, s, isCollect, clean)
+		c.Check(!av, "C37.rebuild", cons, c.instrPos(s), fmt.Sprintf("the sort is reached without collecting only over the not-dirty edge (%d flag test(s))", nTests),
 			"Rebuild reaches unlockedSort without unlockedCollect although the dirty flag may be set: readers get the previous list ("+strings.Join(path, "->")+")")
 	}
-	// collect is followed by the sort (its map iterations leave the list in random order)
-	for i, cc := range callsIn(rebuild, c37Collect) {
+	// collect is followed by the sort (its map iterations leave the list in random order): after every call from which the
+	// collector is reachable, every path to a return sorts - or the helper called sorts after its own collection
+	var sortFollows func(fn *ssa.Function, at ssa.Instruction, depth int) bool
+	sortFollows = func(fn *ssa.Function, at ssa.Instruction, depth int) bool {
+		ev := mSort.event(fn)
 		ok := true
-		for _, r := range g6Returns(rebuild) {
-			if av, _ := c.avoidsCut(rebuild, cc, r, isSort); av {
+		for _, r := range g6Returns(fn) {
+			if av, _ := c.avoidsCut(fn, at, r, ev); av {
 				ok = false
 			}
 		}
-		c.Check(ok, "C37.rebuild", fmt.Sprintf("Rebuild:sort-after-collect#%d", i), c.instrPos(cc), "every path from the collector to a return sorts", "the freshly collected list (map iteration order, duplicates) can be returned without sorting")
+		if ok || g6IsCallTo(c37Collect)(at) || depth >= 3 {
+			return ok
+		}
+		h := mSort.helper(fn, at)
+		if h == nil {
+			return false
+		}
+		n := 0
+		inside := true
+		eachInstr(h, func(in ssa.Instruction) {
+			if mCollect.may(in) {
+				n++
+				if !sortFollows(h, in, depth+1) {
+					inside = false
+				}
+			}
+		})
+		return inside && n > 0
+	}
+	for i, cc := range collects {
+		c.Check(sortFollows(core, cc, 0), "C37.rebuild", fmt.Sprintf("Rebuild:sort-after-collect#%d", i), c.instrPos(cc), "every path from the collector to a return sorts", "the freshly collected list (map iteration order, duplicates) can be returned without sorting")
 	}
 	// flag cleared only after collecting (any function)
 	nClear := 0
@@ -268,28 +353,63 @@ func c37RebuildRules(c *Ctx, funcs []*ssa.Function, rl *types.Named, fDirty *typ
 			}
 			nClear++
 			// (before or after the store: both happen under the write lock)
-			c.Check(c.g6CoveredBy(fn, st, isCollect), "C37.rebuild", fnName(fn)+":flag-cleared-only-with-collect", c.instrPos(st), "every path that clears the flag collects", "the dirty flag is cleared on a path that does not collect: pending cache changes are never reflected in the list")
+			c.Check(c.g6CoveredBy(fn, st, mCollect.event(fn)), "C37.rebuild", fnName(fn)+":flag-cleared-only-with-collect", c.instrPos(st), "every path that clears the flag collects", "the dirty flag is cleared on a path that does not collect: pending cache changes are never reflected in the list")
 		}
 	}
 	if nClear == 0 {
 		c.Unknown("C37.rebuild", "flag-cleared-only-with-collect", "no store shouldRebuild=false found")
 	}
-	// only Rebuild collects
+	// only Rebuild collects: directly, or through helper methods every reference to which is a call on the same receiver
+	// from Rebuild's body / from such a helper (the sort-after-collect rule above starts at those calls)
+	var collectorCaller func(fn *ssa.Function, depth int) bool
+	collectorCaller = func(fn *ssa.Function, depth int) bool {
+		if topFunc(fn) == core {
+			return true
+		}
+		ref, isDecl := g6RefOf(fn)
+		if !isDecl || fn.Parent() != nil || depth >= 3 || !g6RecvIs(fn, rl) {
+			return false
+		}
+		n := 0
+		for _, cs := range callersOf(funcs, ref) {
+			if c.isTestHelperFile(cs.Instr) {
+				continue
+			}
+			n++
+			if cs.Kind != "call" || mCollect.helper(cs.Fn, cs.Instr) != fn || !collectorCaller(cs.Fn, depth+1) {
+				return false
+			}
+		}
+		return n > 0
+	}
 	refC, _ := g6RefOf(collect)
 	for _, cs := range callersOf(funcs, refC) {
 		if c.isTestHelperFile(cs.Instr) {
 			continue
 		}
-		c.Check(topFunc(cs.Fn) == rebuild && cs.Kind == "call", "C37.rebuild", "unlockedCollect<-"+fnName(cs.Fn), c.instrPos(cs.Instr), "called from Rebuild (which sorts afterwards)", "the collector is invoked outside Rebuild: its unsorted, duplicate-carrying result becomes readable")
+		c.Check(cs.Kind == "call" && collectorCaller(cs.Fn, 0), "C37.rebuild", "unlockedCollect<-"+fnName(cs.Fn), c.instrPos(cs.Instr), "called from Rebuild (which sorts afterwards)", "the collector is invoked outside Rebuild: its unsorted, duplicate-carrying result becomes readable")
 	}
-	// preferred ranges: reader param -> Rebuild -> unlockedSort
+	// preferred ranges: reader param -> Rebuild (-> its body) -> unlockedSort; the wrappers hand their parameter through
+	// unchanged (condition of fix3RebuildCore)
 	prefT := rebuild.Params[1].Type()
-	for _, s := range sorts {
-		a := callArgs(s)
-		c.Check(len(a) > 1 && derivesFrom(a[1], sliceLocal, func(x ssa.Value) bool { return x == ssa.Value(rebuild.Params[1]) }), "C37.rebuild", "Rebuild:ranges->unlockedSort", c.instrPos(s), "Rebuild's parameter", "unlockedSort is not given the preferred ranges Rebuild was called with")
+	effSorts := effectiveCalls(core, c37Sort, 3)
+	for _, s := range effSorts {
+		a := s.Args
+		c.Check(len(a) > 1 && a[1] != nil && derivesFrom(a[1], sliceLocal, func(x ssa.Value) bool { return x == ssa.Value(core.Params[1]) }), "C37.rebuild", "Rebuild:ranges->unlockedSort", c.instrPos(s.In), "Rebuild's parameter", "unlockedSort is not given the preferred ranges Rebuild was called with")
+	}
+	isWrapperOrCore := func(fn *ssa.Function) bool {
+		if fn == core {
+			return true
+		}
+		for _, w := range wrappers {
+			if fn == w {
+				return true
+			}
+		}
+		return false
 	}
 	for _, fn := range funcs {
-		if !g6RecvIs(fn, rl) || fn == rebuild {
+		if !g6RecvIs(fn, rl) || fn == rebuild || isWrapperOrCore(fn) {
 			continue
 		}
 		ref, ok := g6RefOf(fn)
@@ -637,26 +757,32 @@ func c37CollectRules(c *Ctx, collect *ssa.Function, fAddrs, fRelays *types.Var) 
 		fRelays: {{"cacheRelay", "relay"}},
 	}
 	getAddrs := Ref{"", "hostnamesResults", "GetAddrs"}
+	fBad := c.Field("", "RemoteList", "badRemotes")
+	// the accumulators are followed through helpers they are threaded through (`addrs = r.appendUnlessBad(addrs, u)`,
+	// `addrs, relays = r.collectV4(c, addrs, relays)`): see x_fix3_helpers.go
+	w := fix3NewWalker()
 	for _, fld := range []*types.Var{fAddrs, fRelays} {
 		stores := g6StoresToField(collect, fld)
 		if len(stores) == 0 {
 			c.Unknown("C37.collect", "unlockedCollect:"+fld.Name(), "the collector no longer stores the list: unrecognised shape")
 			continue
 		}
-		var appends []*ssa.Call
+		chain := &fix3Chain{}
 		startsEmpty, unknown := true, ""
 		for _, st := range stores {
-			ap, bases := g6AppendChain(st.Val)
-			appends = append(appends, ap...)
-			for _, b := range bases {
-				switch {
-				case g6ZeroLen(b):
-				case derivesFrom(b, sliceLocal, func(x ssa.Value) bool { return loadsField(x, fld) }):
-					startsEmpty = false
-				default:
-					unknown = exprString(b)
-				}
+			chain.merge(fix3ChainOf(w, st.Val))
+		}
+		for _, b := range chain.Bases {
+			switch {
+			case g6ZeroLen(b):
+			case derivesFrom(b, sliceLocal, func(x ssa.Value) bool { return loadsField(x, fld) }):
+				startsEmpty = false
+			default:
+				unknown = exprString(b)
 			}
+		}
+		if unknown == "" && len(chain.Opaque) > 0 {
+			unknown = "a helper that is not understood (" + chain.Opaque[0] + ")"
 		}
 		switch {
 		case !startsEmpty:
@@ -664,18 +790,25 @@ func c37CollectRules(c *Ctx, collect *ssa.Function, fAddrs, fRelays *types.Var) 
 		case unknown != "":
 			c.Unknown("C37.collect", "unlockedCollect:"+fld.Name()+":starts-empty", "accumulator starts from "+unknown+": unrecognised shape")
 		default:
-			c.OK("C37.collect", "unlockedCollect:"+fld.Name()+":starts-empty", fmt.Sprintf("%d append(s) onto an empty slice", len(appends)))
+			c.OK("C37.collect", "unlockedCollect:"+fld.Name()+":starts-empty", fmt.Sprintf("%d append(s) onto an empty slice", len(chain.Sites)))
 		}
 		seen := map[*types.Var]bool{}
 		dns := false
-		for _, ap := range appends {
-			for _, v := range g6AppendedValues(ap) {
-				for f := range g6FieldVarsIn(v, sliceThrough) {
-					seen[f] = true
-				}
-				if derivesFrom(v, sliceThrough, isCallTo(getAddrs)) {
-					dns = true
-				}
+		for _, site := range chain.Sites {
+			c.Funcs[site.Append.Parent().String()] = true
+			for _, v := range g6AppendedValues(site.Append) {
+				// `append(dst, src...)` copies every element of src: the spread slice is the appended value
+				fix3BackSliceUp(site, v, sliceThrough, func(x ssa.Value) {
+					switch f := x.(type) {
+					case *ssa.FieldAddr:
+						seen[fieldOfAddr(f)] = true
+					case *ssa.Field:
+						seen[fieldOfVal(f)] = true
+					}
+					if isCallTo(getAddrs)(x) {
+						dns = true
+					}
+				})
 			}
 		}
 		for _, s := range want[fld] {
@@ -683,25 +816,63 @@ func c37CollectRules(c *Ctx, collect *ssa.Function, fAddrs, fRelays *types.Var) 
 			if f == nil {
 				continue
 			}
-			c.Check(seen[f], "C37.collect", fmt.Sprintf("unlockedCollect:%s<-%s.%s", fld.Name(), s.typ, s.field), c.P.Pos(collect.Pos()), "feeds the list", fmt.Sprintf("%s.%s no longer reaches the %s list: addresses from that source are never candidates", s.typ, s.field, fld.Name()))
+			cons := fmt.Sprintf("unlockedCollect:%s<-%s.%s", fld.Name(), s.typ, s.field)
+			if !seen[f] && unknown != "" {
+				// part of the accumulation was not understood: the source may feed the list there
+				c.Unknown("C37.collect", cons, fmt.Sprintf("%s.%s is not seen to reach the %s list, but the list is partly built by %s: cannot decide", s.typ, s.field, fld.Name(), unknown))
+				continue
+			}
+			c.Check(seen[f], "C37.collect", cons, c.P.Pos(collect.Pos()), "feeds the list", fmt.Sprintf("%s.%s no longer reaches the %s list: addresses from that source are never candidates", s.typ, s.field, fld.Name()))
 		}
 		if fld == fAddrs {
-			c.Check(dns, "C37.collect", "unlockedCollect:addrs<-hostnamesResults.GetAddrs", c.P.Pos(collect.Pos()), "feeds the list", "DNS-resolved static addresses no longer reach the address list")
-			// blocked test on the very address appended
-			for i, ap := range appends {
-				vals := g6AppendedValues(ap)
-				// directly, or through a one-level helper (`if r.admit(u) {...}`) whose summary is decided
-				g := c.g6ViaHelper("address not blocked", func(v ssa.Value) bool {
-					for _, u := range vals {
-						if sameVar(v, u) {
-							return true
+			if !dns && unknown != "" {
+				c.Unknown("C37.collect", "unlockedCollect:addrs<-hostnamesResults.GetAddrs", "DNS-resolved static addresses are not seen to reach the address list, but the list is partly built by "+unknown+": cannot decide")
+			} else {
+				c.Check(dns, "C37.collect", "unlockedCollect:addrs<-hostnamesResults.GetAddrs", c.P.Pos(collect.Pos()), "feeds the list", "DNS-resolved static addresses no longer reach the address list")
+			}
+			// blocked test on the very address appended: where the append lives, or - when the appended value is a
+			// parameter of a helper - in a caller, on the argument
+			for i, site := range chain.Sites {
+				cons := fmt.Sprintf("%s:addrs-append#%d<-address not blocked", fnName(collect), i)
+				vals := g6AppendedValues(site.Append)
+				okAll := len(vals) > 0
+				var where []string
+				for _, val := range vals {
+					levels := fix3Levels(site, val)
+					mk := func(lv fix3Level) Guard {
+						lval := lv.Val
+						// directly, or through a one-level helper (`if r.admit(u) {...}`) whose summary is decided
+						return c.g6ViaHelper("address not blocked", func(v ssa.Value) bool { return sameVar(v, lval) }, func(isVal func(ssa.Value) bool) Guard {
+							return fix3NotBlocked("address not blocked", fBad, isVal)
+						})
+					}
+					pass, dead, at, path := fix3PassAtSomeLevel(c, levels, mk)
+					if pass {
+						where = append(where, at)
+						continue
+					}
+					okAll = false
+					unrecognised := false
+					if fBad != nil {
+						for _, lv := range levels {
+							lval := lv.Val
+							if fix3ComparesWithElemOf(lv.Fn, func(v ssa.Value) bool { return sameVar(v, lval) }, fBad) {
+								unrecognised = true
+							}
 						}
 					}
-					return false
-				}, func(isVal func(ssa.Value) bool) Guard {
-					return gBool("address not blocked", false, -1, callTo(Ref{"", "RemoteList", "unlockedIsBad"}).withArg(1, isVal))
-				})
-				c.requireGuards("C37.blocked", collect, []Sink{{Instr: ap, Desc: "append to addrs"}}, fmt.Sprintf("addrs-append#%d", i), g)
+					switch {
+					case unrecognised:
+						c.Unknown("C37.blocked", cons, "the address is compared with the blocked list in a form that is not recognised (expected !unlockedIsBad(address) / !slices.Contains(badRemotes, address) in front of the append): cannot decide")
+					case dead:
+						c.Unknown("C37.blocked", cons, "guard test not found and sink unreachable: unrecognised shape")
+					default:
+						c.Bad("C37.blocked", cons, c.instrPos(site.Root()), fmt.Sprintf("append to addrs (%s) is reachable without passing the test %q on the appended address", site.String(), "address not blocked"), path...)
+					}
+				}
+				if okAll {
+					c.OK("C37.blocked", cons, fmt.Sprintf("every path to the %s passes the test (in %s)", site.String(), strings.Join(where, ", ")))
+				}
 			}
 		}
 	}
@@ -997,13 +1168,41 @@ func c37OrderTable(c *Ctx, cons string, sc *ssa.Call, relays bool) {
 			}
 			return 0, false
 		}
-		env := &AbsEnv{Params: map[string]AVal{p0: aSym("§0"), p1: aSym("§1")}, OpaqueCalls: true,
+		var env *AbsEnv
+		inlineDepth := 0
+		env = &AbsEnv{Params: map[string]AVal{p0: aSym("§0"), p1: aSym("§1")}, OpaqueCalls: true,
 			Oracle: func(o *types.Func, a []AVal) (AVal, bool) {
 				if matchFunc(o, Ref{"", "", "isPreferred"}) && len(a) == 2 {
 					if s := side(a[0].String()); s >= 0 {
 						return aBool(pref[s]), true
 					}
 					return AVal{}, false
+				}
+				// the comparator (or a part of it) extracted into a named function / method of the module: evaluated in
+				// place, its parameters bound to the abstract arguments; leaving the fragment there leaves it here
+				if o.Pkg() != nil && strings.HasPrefix(o.Pkg().Path(), nebulaMod) {
+					h := c.P.SSA.FuncValue(o)
+					if h == nil || h.Blocks == nil || len(h.Params) != len(a) || inlineDepth >= 3 {
+						return AVal{}, false
+					}
+					sub := *env
+					sub.Params = map[string]AVal{}
+					sub.MaxSteps = 0
+					pre := map[ssa.Value]AVal{}
+					for i, p := range h.Params {
+						pre[p] = a[i]
+					}
+					inlineDepth++
+					out, err := g6AbsEval(h, &sub, pre)
+					inlineDepth--
+					if err != "" || len(out) == 0 {
+						return AVal{}, false
+					}
+					c.Funcs[h.String()] = true
+					if len(out) == 1 {
+						return out[0], true
+					}
+					return AVal{Tup: out}, true
 				}
 				if o.Pkg() == nil || o.Pkg().Path() != "net/netip" || len(a) == 0 {
 					return AVal{}, false
